@@ -5,7 +5,7 @@
 #include "lib.h"
 using namespace vf;
 using namespace bspline::operators;
-using S = QP;
+using S = vf::DefaultScalar;
 using VS = Spline<S, 1>;
 
 struct Ctx {
